@@ -4,6 +4,10 @@ import Gql.Proofs.BlockForced2
 import Gql.Proofs.BlockIndent
 import Gql.Syntax.Printer
 import Gql.Proofs.TypeTokens
+import Gql.Proofs.TypeParse
+import Gql.Proofs.ValueRoundtrip
+import Gql.Proofs.Printable
+import Gql.Proofs.ExecPrint
 /-!
 # C08 — Printing a parsed document and parsing it again gives the same AST
 
@@ -86,6 +90,15 @@ theorem lex_block_representable (body : List Nat) (st : LexState) (start : Nat) 
     ∃ v, tok.value = some v ∧ BlockRepresentable v :=
   readBlockString_representable body st start tok st' h
 
+/-- **`is_printable_as_block_string` is sound.**  Every value the schema printer decides to print as
+a block string (`print_description` in print_schema.py, C17) is block-representable — so by
+`block_roundtrip` it reads back character for character, with and without `minimize`. -/
+theorem printable_representable (v : List Nat) (h : isPrintableAsBlockString v = true) :
+    BlockRepresentable v :=
+  Gql.Text.printable_representable v h
+
+example : isPrintableAsBlockString [97, 10, 32, 32, 98, 34, 10, 10, 99] = true := by decide
+
 /-- The printer's `indent` (`string.replace("\n", "\n  ")`, applied once per nesting level to the
 already printed children, block strings included) is `indentLF`; nesting adds up. -/
 theorem printer_indent_is_indentLF (x : List Nat) (a b : Nat) :
@@ -135,10 +148,98 @@ example : (Ty.nonNull (.list (.list (.nonNull (.named [70, 111, 111]))))).wf = t
       [91, 91, 70, 111, 111, 33, 93, 93, 33] := by decide
 
 open Gql.Syntax in
+/-- **C08 for the TYPE entry point, with the real parser model** (`Gql.Syntax.parseSource`, C01's
+crash-faithful model of parser.py; any flags, no `max_tokens`).  For every type tree the parser can
+build (`TyP.shaped`: the child of a non-null type is not itself non-null) whose names are lexically
+Names: the printer model prints it without crashing (any widths) and `parse_type` of the printed
+text is the same tree — `roundtrip_full` instantiated for `parse_type`. -/
+theorem roundtrip_type (w : Widths) (cfg : Cfg) (hm : cfg.maxTokens = none) (t : Ty)
+    (hwf : t.wf = true) (hsh : TyP.shaped t = true) :
+    ∃ text, printAst w t.toAst = .ok text ∧ parseSource .type cfg text = .ok t.toAst :=
+  ⟨t.print, (type_print_lex w t hwf).1, parseSource_type_print cfg hm t hwf hsh⟩
+
+-- `[[Foo!]]!` is parser-shaped, `Foo!!` is not
+example : Gql.Syntax.TyP.shaped (Ty.nonNull (.list (.list (.nonNull (.named [70, 111, 111]))))) = true ∧
+    Gql.Syntax.TyP.shaped (Ty.nonNull (.nonNull (.named [70, 111, 111]))) = false := by decide
+
+open Gql.Syntax in
+/-- **C08-3 `render_lex` for values.**  For every well-formed value (`Val.wf`: what
+`parse_value_literal` can build — valid names and number texts, enum values other than
+true/false/null, strings of scalar values, block-representable block strings), in whichever layout
+the widths select at every nesting level (one line / wrapped with `indent`), re-indented by any
+`k`, after any prefix and before any continuation that cannot extend a token (`Safe`): the lexer
+reads exactly the value's tokens `Val.kvs v` — no two tokens run together, nothing is split, every
+string token carries its value. -/
+theorem render_lex_value (w : Widths) (hw : 4 ≤ w.object) (c : Bool) (v : Val) (hwf : Val.wf c v) (k : Nat) :
+    Lexes true (indentLF k (Val.print w v)) v.kvs :=
+  lexV w hw c escape_table_entries_decode escape_table_covers_required v hwf k
+
+open Gql.Syntax in
+/-- **C08 for the VALUE and CONST VALUE entry points, with the real parser model.**  For every
+well-formed value tree (`c = false`: `parse_value`, variables allowed; `c = true`:
+`parse_const_value`), all widths with `object ≥ 4` (an empty object prints as `{  }`), any flags,
+no `max_tokens`: the printer model prints it without crashing and parsing the printed text gives
+the same tree — `roundtrip_full` instantiated for `parse_value` / `parse_const_value`. -/
+theorem roundtrip_value (w : Widths) (hw : 4 ≤ w.object) (cfg : Cfg) (hm : cfg.maxTokens = none)
+    (c : Bool) (v : Val) (hwf : Val.wf c v) :
+    ∃ text, printAst w v.toAst = .ok text ∧
+      parseSource (if c then .constValue else .value) cfg text = .ok v.toAst :=
+  ⟨Val.print w v, printAst_val w v,
+    parseSource_value_print cfg hm w hw escape_table_entries_decode escape_table_covers_required c v hwf⟩
+
+-- non-vacuity: `[1, """a\nb""", {a: B}, -0.5e+10]` is a well-formed constant value; the generated widths qualify
+example : Val.wf true (.list [.int [49], .str [97, 10, 98] true, .obj [([97], .enum [66])],
+    .float [45, 48, 46, 53, 101, 43, 49, 48]]) ∧ 4 ≤ Gql.Syntax.Widths.generated.object := by
+  refine ⟨⟨?_, ⟨by decide, fun _ => by decide⟩, ⟨by decide, ⟨by decide, by decide, by decide, by decide⟩, trivial⟩, ?_, trivial⟩,
+    by decide⟩
+  · exact ⟨⟨[], [49], [], []⟩, ⟨Or.inl rfl, by decide, Or.inl rfl, Or.inl rfl⟩, rfl, rfl⟩
+  · exact ⟨⟨[45], [48], [46, 53], [101, 43, 49, 48]⟩,
+      ⟨Or.inr rfl, by decide, Or.inr ⟨[53], rfl, by decide⟩,
+        Or.inr ⟨101, [43], [49, 48], rfl, Or.inr rfl, Or.inr (Or.inl rfl), by decide⟩⟩, rfl, rfl⟩
+
+open Gql.Syntax in
+/-- **C08-3 `render_lex` for executable documents (stage 1).**  The text printed for a document of
+operations (shorthand, or keyword with optional name and directives) and fragment definitions whose
+selection sets hold fields (alias, arguments, directives, nested selection sets), fragment spreads
+and inline fragments — in every layout (`wrapped_line_and_args` one-line or wrapped, `block` with
+nested `indent`) — lexes to exactly the document's tokens.  Not yet covered: variable definitions,
+descriptions, fragment arguments, type-system definitions and extensions. -/
+theorem render_lex_document_partial (w : Widths) (hw : 4 ≤ w.object) (defs : List Def)
+    (hwf : Exec.defsWf defs) : Lexes true (Exec.printDoc w defs) (Exec.defsKvs defs) :=
+  lexes_doc w hw escape_table_entries_decode escape_table_covers_required defs hwf
+
+open Gql.Syntax in
+/-- **C08 for the DOCUMENT entry point, stage 1, with the real parser model.**  For every
+well-formed executable document of the sub-grammar above (`Exec.defsWf`: operation types and names
+valid, fragment names other than `on`, non-empty selection sets, well-formed argument values), all
+widths with `object ≥ 4`, either setting of both experimental flags, no `max_tokens`: the printer
+model prints it without crashing and `parse` of the printed text is the same tree.  The missing
+node kinds are listed at `render_lex_document_partial`; the full statement is `roundtrip_full`. -/
+theorem roundtrip_document_partial (w : Widths) (hw : 4 ≤ w.object) (cfg : Cfg) (hm : cfg.maxTokens = none)
+    (defs : List Def) (hne : defs ≠ []) (hwf : Exec.defsWf defs) :
+    ∃ text, printAst w (Exec.docAst cfg.fragArgs defs) = .ok text ∧
+      parseSource .document cfg text = .ok (Exec.docAst cfg.fragArgs defs) :=
+  ⟨Exec.printDoc w defs, printAst_doc w cfg.fragArgs defs,
+    parseSource_doc_print cfg hm w hw escape_table_entries_decode escape_table_covers_required defs hne hwf⟩
+
+-- non-vacuity: `query Q @d(a: true) { x: f(a: null) @e { ...F ... on T { g } } }  fragment F on T { h }`
+open Gql.Syntax in
+example : Exec.defsWf
+    [.op (S "query") [81] [⟨[100], [([97], .bool true)]⟩]
+      [.field [120] [102] [([97], .null)] [⟨[101], []⟩]
+        [.spread [70] [], .inline [84] [] [.field [] [103] [] [] []]]],
+     .frag [70] [84] [] [.field [] [104] [] [] []]] := by
+  simp (config := { decide := true }) [Exec.defsWf, Exec.defWf, Exec.isOpType, Exec.dirsWf, Exec.dirWf,
+    Exec.argsWf, Val.wfFields, Val.wf, Exec.selsWf, Exec.selWf]
+
+open Gql.Syntax in
 /-- The document-level statement of C08 against an abstract parser (the crash-faithful parser model
 is C01's; it is a parameter here): whatever parses, prints (no crash) to text that parses, with the
-same flags, to the same tree — hence printing is a fixed point.  **Not proved here**: it needs the
-parser model, `render_lex` (layout safety of every `leave_*`) and `tokensOf`/`parse_tokensOf`.
+same flags, to the same tree — hence printing is a fixed point.  **Proved** for the type, value and
+const-value entry points with the real parser model (`roundtrip_type`, `roundtrip_value`) and for a
+sub-grammar of executable documents (`roundtrip_document_partial`); **not proved** for the remaining
+node kinds (variable definitions, descriptions, fragment arguments, type-system definitions and
+extensions), nor the converse `parse_wf` (every parsed tree is one of the typed trees).
 What is proved: every string token of the printed text reads back to its value
 (`printString_roundtrip`, `block_roundtrip`, `block_indent_roundtrip`, `lex_block_representable`)
 and the type sub-grammar (`type_print_lex`).  On the implementation the relation below is
